@@ -1,6 +1,6 @@
 """C04 — eval fails only with the JSError family."""
 
-from ..rules import builtins, encoding, exceptions, frontprogress, textparse
+from ..rules import builtins, encoding, exceptions, frontprogress, pairing, textparse
 
 
 def run(ctx, rep):
@@ -16,6 +16,8 @@ def run(ctx, rep):
         implicit.rule_ord_of_case_mapping(ctx, rep, "C04-R2c")
     frontprogress.rule_frontend_progress(ctx, rep, "C04-R5")
     builtins.rule_index_bound_survives_callback(ctx, rep, "C04-R6")
+    pairing.rule_contextmanager_cleanup(ctx, rep, "C04-R8", where=lambda f: f.module.name in ("parser", "lexer", "regex.parser", "compiler"), what=" of the front end")
+    pairing.rule_lookahead_restores(ctx, rep, "C04-R9")
     textparse.rule_ascii_digit_scanners(ctx, rep, "C04-R7", modules=("lexer", "regex.parser", "context", "vm", "values"), floor=3)
     rep.undecided += [
         "that reported line/column are the right numbers (value property)",
